@@ -87,33 +87,58 @@ theorem applyMove_stepA {c : Cfg} {s s' : State} {m : Move} (h : applyMove c s m
     · rename_i hp; simp only [Option.some.injEq] at h; subst h; exact StepA.start s t hp.1 hp.2
     · simp at h
 
+/-- run a schedule; `_events` must not overflow on the way -/
 def run (c : Cfg) : State → List Move → Option State
   | s, [] => some s
   | s, m :: ms =>
     match applyMove c s m with
-    | some s' => run c s' ms
+    | some s' => if s'.wrapped = false then run c s' ms else none
     | none => none
 
+/-- run a schedule, overflow allowed (plain `Step`) -/
+def runW (c : Cfg) : State → List Move → Option State
+  | s, [] => some s
+  | s, m :: ms =>
+    match applyMove c s m with
+    | some s' => runW c s' ms
+    | none => none
+
+theorem runW_reachable {c : Cfg} {init : State → Prop} :
+    ∀ (ms : List Move) (s s' : State), Reachable init (Step c) s → runW c s ms = some s' → Reachable init (Step c) s'
+  | [], s, s', hr, h => by simp only [runW, Option.some.injEq] at h; subst h; exact hr
+  | m :: ms, s, s', hr, h => by
+    simp only [runW] at h
+    split at h
+    · rename_i s1 h1
+      exact runW_reachable ms s1 s' (Reachable.tail hr (applyMove_step h1)) h
+    · simp at h
+
 theorem run_reachable {c : Cfg} {init : State → Prop} :
-    ∀ (ms : List Move) (s s' : State), Reachable init (Step c) s → run c s ms = some s' → Reachable init (Step c) s'
+    ∀ (ms : List Move) (s s' : State), Reachable init (StepN c) s → run c s ms = some s' → Reachable init (StepN c) s'
   | [], s, s', hr, h => by simp only [run, Option.some.injEq] at h; subst h; exact hr
   | m :: ms, s, s', hr, h => by
     simp only [run] at h
     split at h
     · rename_i s1 h1
-      exact run_reachable ms s1 s' (Reachable.tail hr (applyMove_step h1)) h
+      split at h
+      · rename_i hw
+        exact run_reachable ms s1 s' (Reachable.tail hr ⟨applyMove_step h1, hw⟩) h
+      · simp at h
     · simp at h
 
 theorem runA_reachable {c : Cfg} {init : State → Prop} :
-    ∀ (ms : List Move) (s s' : State), ms.all (fun m => !m.refuses) = true → Reachable init (StepA c) s →
-      run c s ms = some s' → Reachable init (StepA c) s'
+    ∀ (ms : List Move) (s s' : State), ms.all (fun m => !m.refuses) = true → Reachable init (StepAN c) s →
+      run c s ms = some s' → Reachable init (StepAN c) s'
   | [], s, s', _, hr, h => by simp only [run, Option.some.injEq] at h; subst h; exact hr
   | m :: ms, s, s', ha, hr, h => by
     simp only [run] at h
     simp only [List.all_cons, Bool.and_eq_true, Bool.not_eq_true'] at ha
     split at h
     · rename_i s1 h1
-      exact runA_reachable ms s1 s' ha.2 (Reachable.tail hr (applyMove_stepA h1 ha.1)) h
+      split at h
+      · rename_i hw
+        exact runA_reachable ms s1 s' ha.2 (Reachable.tail hr ⟨applyMove_stepA h1 ha.1, hw⟩) h
+      · simp at h
     · simp at h
 
 end Babylon.ExecQ
